@@ -73,7 +73,7 @@ fn $name() {
 }
 
 // @harness c03_flush_entries_new_shared
-// @props C03 C16 C18 C17
+// @props C03 C16 C18 C17 C02 C04
 // @tier quick
 // @cost 100
 // @timeout 1500
@@ -86,7 +86,7 @@ fn $name() {
 flush_entries!(c03_flush_entries_new_shared, true, true, true, 1);
 
 // @harness c03_flush_entries_handled
-// @props C03 C16 C18 C17
+// @props C03 C16 C18 C17 C02 C04
 // @tier quick
 // @cost 100
 // @timeout 1500
@@ -99,7 +99,7 @@ flush_entries!(c03_flush_entries_new_shared, true, true, true, 1);
 flush_entries!(c03_flush_entries_handled, true, true, true, 2);
 
 // @harness c03_flush_entries_plain
-// @props C03 C16 C18 C17
+// @props C03 C16 C18 C17 C02 C04
 // @tier quick
 // @cost 100
 // @timeout 1500
@@ -112,7 +112,7 @@ flush_entries!(c03_flush_entries_handled, true, true, true, 2);
 flush_entries!(c03_flush_entries_plain, true, true, true, 0);
 
 // @harness c03_flush_entries_split
-// @props C03 C16 C18 C17
+// @props C03 C16 C18 C17 C02 C04
 // @tier quick
 // @cost 100
 // @timeout 1500
@@ -125,7 +125,7 @@ flush_entries!(c03_flush_entries_plain, true, true, true, 0);
 flush_entries!(c03_flush_entries_split, false, true, true, 1);
 
 // @harness c03_flush_entries_one_dirty
-// @props C03 C16 C18 C17
+// @props C03 C16 C18 C17 C02 C04
 // @tier quick
 // @cost 100
 // @timeout 1500
@@ -138,7 +138,7 @@ flush_entries!(c03_flush_entries_split, false, true, true, 1);
 flush_entries!(c03_flush_entries_one_dirty, true, false, true, 1);
 
 // @harness c03_flush_entries_clean
-// @props C03 C16 C18 C17
+// @props C03 C16 C18 C17 C02 C04
 // @tier quick
 // @cost 100
 // @timeout 1500
